@@ -60,3 +60,32 @@ Example aliasing_changes_are_rejected :
                                 ("lastSend", RFresh "now"); ("size", RConst 0); ("results", RNil)]) outside_model = false /\
   regions_ok regions_model (outside_model ++ [{| ac_func := "fetchLoopIteration"; ac_field := "results"; ac_mode := AW |}]) = false.
 Proof. vm_compute. auto. Qed.
+
+(* ---------------------------------------------------------------- round 6: the regions of the two-step swap (seeded C02-f) are rejected.
+   What translate/gen_c01_regions regenerates from the source in which swapBuffers takes the waiters in takeWaiting() (a region of its own),
+   acquires the next column set outside any region and swaps the columns in a second region -- the source shape of the variant
+   model/IngestSwap2.v.  regions_ok fails on it for three independent reasons: the step SSwap has no single region writing all the shared
+   fields it changes (step_ok KSwap), the region of takeWaiting belongs to no step of the model (owner count 0), and swap_fresh does not
+   find the portion handed out by the region that re-initialises the fields. *)
+Definition regions_c02f : list region :=
+  filter (fun r => negb (String.eqb (rg_func r) "swapBuffers")) regions_model ++ [
+  {| rg_func := "takeWaiting"; rg_ord := 0;
+     rg_writes := [("insertCtx", RFresh "context"); ("insertCancel", RFresh "context"); ("results", RNil); ("size", RConst 0)];
+     rg_reads := ["pushInterval"; "results"; "size"];
+     rg_calls := [];
+     rg_returns := [RField "results"; RField "size"] |};
+  {| rg_func := "swapBuffers"; rg_ord := 0;
+     rg_writes := [("columns", RFresh "acquireColumns"); ("lastSend", RFresh "now")];
+     rg_reads := ["columns"];
+     rg_calls := [];
+     rg_returns := [RField "columns"; ROther "results"; ROther "size"; RNil] |} ].
+Definition outside_c02f : list access :=
+  outside_model ++ [ {| ac_func := "swapBuffers"; ac_field := "acquireColumns"; ac_mode := AC |} ].
+
+Theorem split_swap_regions_are_rejected :
+  regions_ok regions_c02f outside_c02f = false /\
+  step_ok regions_c02f KSwap = false /\
+  existsb (fun r => Nat.eqb (region_owner_count r) 0) regions_c02f = true /\
+  swap_fresh regions_c02f = false /\
+  List.length regions_c02f = 6%nat.
+Proof. vm_compute. repeat split; reflexivity. Qed.
